@@ -75,6 +75,7 @@ type Contract struct {
 	Pure        bool // "assigns nothing" and checked
 	NoPanic     bool
 	NoOverflow  bool
+	NoMapRange  bool // `nomaprange`: the body must not iterate over a map (order-sensitive construction)
 	Terminates  bool
 	Trusted     bool              // contract assumed, body not checked (listed in evidence)
 	Functional  bool              // calls are modelled as an uninterpreted function of the argument values
